@@ -7,7 +7,9 @@ import itertools
 import os
 import vlib
 
-PROOFS = ["MgProof.C10.Props"]
+PROOFS = ["MgProof.C10.Basic", "MgProof.C10.SortLemmas", "MgProof.C10.HeapLemmas", "MgProof.C10.HeapOps",
+          "MgProof.C10.HeapHistory", "MgProof.C10.HeapSortLemmas", "MgProof.C10.MergeLemmas",
+          "MgProof.C10.QuickLemmas", "MgProof.C10.Props"]
 GREP = ["MgModel/C10", "MgProof/C10", "MgModel/Common", "Drv/C10.lean"]
 REPO_SRCS = ["muggle/c/dsaa/heap.c", "muggle/c/dsaa/sort.c"]
 ALGS = ["ins", "shell", "heap", "merge", "quick"]
